@@ -1312,8 +1312,14 @@ def check_property(prop, tier, seed):
                 m = run_suite(sname, tier, seed, fp)
             suites_meta[sname] = dict(wall_s=m["wall"], crashed=m["crashed"])
             types, cases = load_pairs(m)
+            # a type whose ALIGN / MIN_SIZE differ between implementation and model matters to this property only if the suite
+            # has cases of that type (the portable suite, for one, prints the table but works on scalars only)
+            used = set()
+            for lhs, _, _ in cases:
+                f1 = lhs.split(" ")[1] if " " in lhs else ""
+                if f1.isdigit(): used.add(int(f1))
             for tid, t in types.items():
-                if f"align={t['align']} min={t['min']}" not in t["model"]:
+                if tid in used and f"align={t['align']} min={t['min']}" not in t["model"]:
                     mismatch_findings.append(Finding(prop, "correspondence", sname, f"T {tid} {t['name']} {t['desc']}", f"align={t['align']} min={t['min']}", t["model"], "ALIGN / MIN_SIZE of the type differ between implementation and model"))
             for lhs, rhs, mo in cases:
                 f1 = lhs.split(" ")[1] if " " in lhs else ""
